@@ -72,7 +72,7 @@ def scenarios(rng, n, heading_share=0.0):
                              "p%s:%d" % (rng.choice(["gen.recv", "grow.recv", "spread.recv", "split.send", "herr.reader", "gen.line", "feed.send", "walk.recv", "mkdir.recv"]), rng.randint(1, 6))])
         rfail = "-" if rng.random() < 0.85 or entry.startswith("r") else str(rng.randint(0, len(doc)))
         procs = rng.choice([1, 2, 4, 16])
-        seed = rng.choice([0, rng.randint(1, 10 ** 6), rng.randint(1, 10 ** 6), directed_delay(rng)])
+        seed = rng.choice([0, rng.randint(1, 10 ** 6), rng.randint(1, 10 ** 6), directed_delay(rng, len(lines))])
         slow = rng.choice("01")
         if entry.startswith("r"):
             inp = items_arg(merged_items(items)[0]).encode()
